@@ -44,6 +44,9 @@ KEYWORDS = ('BATCH', 'number of tasks is', 'PACKET_LENGTH', 'initialization time
             'Type and parameters of random generator', 'COUNTER')
 
 
+WATCHDOG = 10          # seconds per call; a scan takes about a millisecond, a parse a few tens
+
+
 class Watchdog(Exception):
     pass
 
@@ -144,14 +147,14 @@ class Runner:
         from valjean.eponine.tripoli4.parse import Parser, ParserException
         probs = []
         self.write(data)
-        signal.alarm(30)
+        signal.alarm(WATCHDOG)
         try:
             try:
                 par = Parser(self.path)
             except ParserException:
                 return ('scan-error',), probs
             except Watchdog:
-                return ('hang',), [('C11|hang|scan', 'Parser() exceeded the 30 s watchdog')]
+                return ('hang',), [('C11|hang|scan', 'Parser() exceeded the watchdog')]
             except Exception as exc:  # pylint: disable=broad-except
                 return ('scan-raises', type(exc).__name__), [(f'C11|scan-raises|{type(exc).__name__}|{site(exc)}',
                                                               f'Parser() raised {type(exc).__name__}: {exc}')]
@@ -164,13 +167,13 @@ class Runner:
                     kind, view, prob = self.cache[ckey]
                 else:
                     kind, view, prob = 'ok', None, None
-                    signal.alarm(30)
+                    signal.alarm(WATCHDOG)
                     try:
                         view = edition_view(par.parse_from_number(num).res)
                     except ParserException:
                         kind = 'parse-error'
                     except Watchdog:
-                        kind, prob = 'hang', ('C11|hang|parse', f'parse_from_number({num}) exceeded the 30 s watchdog')
+                        kind, prob = 'hang', ('C11|hang|parse', f'parse_from_number({num}) exceeded the watchdog')
                     except Exception as exc:  # pylint: disable=broad-except
                         kind = 'parse-raises:' + type(exc).__name__
                         prob = (f'C11|parse-raises|{type(exc).__name__}|{site(exc)}', f'parse_from_number({num}) raised {type(exc).__name__}: {exc}')
@@ -185,7 +188,7 @@ class Runner:
                         probs.append(('C11|edition|differs', f'edition {num} parsed from the prefix differs from the complete listing: {_diff(view, ref[num])}'))
                 results.append((num, kind, hashlib.sha1(repr(view).encode()).hexdigest()[:10] if view is not None else None))
             # default entry point: last edition by index
-            signal.alarm(30)
+            signal.alarm(WATCHDOG)
             try:
                 par.parse_from_index(-1)
                 last = 'ok'
@@ -193,7 +196,7 @@ class Runner:
                 last = 'parse-error'
             except Watchdog:
                 last = 'hang'
-                probs.append(('C11|hang|parse', 'parse_from_index(-1) exceeded the 30 s watchdog'))
+                probs.append(('C11|hang|parse', 'parse_from_index(-1) exceeded the watchdog'))
             except Exception as exc:  # pylint: disable=broad-except
                 last = 'raises:' + type(exc).__name__
                 probs.append((f'C11|parse-raises|{type(exc).__name__}|{site(exc)}', f'parse_from_index(-1) raised {type(exc).__name__}: {exc}'))
